@@ -442,13 +442,28 @@ def sequence_differential(ctx, domain, args, label=None, key_of=None, max_report
             break
         reported += 1
         small = seq
+        # the whole sequence continues after the first mismatch: look for a property failure
+        # (impl != oracle) in the FULL sequence first and shrink with respect to that
+        j = m["i"]
+        while j + 1 < len(ops) and ops[j + 1] != "reset":
+            j += 1
+        full = enclosing_sequence(ops, j) if m["i"] < len(ops) else seq
+        want_oracle = any(x["kind"] == "impl!=oracle" for x in seq_fails(ctx, domain, full)[1]) if full else False
+        if want_oracle:
+            seq = full
+            small = full
+
+        def pred(c):
+            f, mm_ = seq_fails(ctx, domain, c)
+            return any(x["kind"] == "impl!=oracle" for x in mm_) if want_oracle else f
         if seq:
             try:
-                small = ddmin(seq, lambda c: seq_fails(ctx, domain, c)[0])
+                small = ddmin(seq, pred)
             except Exception as e:  # shrinking is best effort
                 ctx.log(f"shrink failed: {e}")
         fails, mm = seq_fails(ctx, domain, small) if small else (True, [m])
-        first = (mm or [m])[0]
+        mm = sorted(mm or [m], key=lambda x: 0 if x["kind"] == "impl!=oracle" else 1)
+        first = mm[0]
         kind = first["kind"]
         key = key_of(small, first) if key_of else None
         body = {"kind": kind, "domain": domain, "ops": small, "first_difference": first,
